@@ -93,6 +93,10 @@ OCCURS_PROGRAMS = {
 }
 MATRIX = {
     "bind-variable": ("let a = num;\nres / on get -> <a>;\n", 0),
+    # the same names used several times - in the reversed variants before their declarations, so that equations between
+    # still-free variables (v = v after reduction) have to be accepted
+    "repeated-uses-of-names-declared-elsewhere": ("let u = num;\nlet f x = { 'v x };\nlet a = f u;\nlet b = f u;\nlet s = u | u;\nlet g x y = x | y;\nlet t = g u u;\n"
+                                                  "res / on get -> <{ 'a a, 'b b, 's s, 't t }>;\n", 0),
     "chain-of-aliases": ("let a = b;\nlet b = c;\nlet c = { 'n num };\nres / on get -> <a & {}>;\n", 0),
     "use-before-def": ("res / on get -> <a>;\nlet a = {};\n", 0),
     "function-ok": ("let f x = [x];\nres / on get -> <f num>;\n", 0),
